@@ -375,7 +375,7 @@ def run(ctx):
     wbs, scs = list(wb_cases(ctx.tier)), list(sched_cases(ctx.tier))
     ctx.explore(run_case, [c for c in wbs if not heavy(c)], chunksize=8, label='workbooks')
     ctx.explore(run_case, [c for c in scs if not heavy(c)], chunksize=2, label='schedules')
-    ctx.explore(run_case, [c for c in wbs + scs if heavy(c)], chunksize=1, label='whole_column_workbooks', nproc=4)
+    ctx.explore(run_case, [c for c in wbs + scs if heavy(c)], chunksize=1, label='whole_column_workbooks', nproc=8)
     # free-running hash seeds (separate processes, no seams)
     from mc.core import pmap
     seeds = list(range(8 if ctx.tier == 'quick' else 32))
